@@ -110,7 +110,14 @@ def gen_history(tier, seed):
                 lines.append((f"{op} ${h} ${a} " + " ".join(f"k:{l}" for l in keep)).rstrip()); cnt(op)
             elif roll < 0.54:
                 tg = r.sample("abcd", r.randint(0, 4))
-                d = new_dset(tg)
+                if "a" in la and r.random() < 0.25:
+                    # a target that has the letter a with another number of items ($6): not the array's dimension
+                    d = nxt[0]; nxt[0] += 1
+                    rest_ = [l for l in tg if l != "a"] + [l for l in la if l not in tg and l != "a"]
+                    lines.append((f"dset ${d} $6 " + " ".join(f"${HANDLE[l]}" for l in rest_)).rstrip())
+                    cnt("castto_same_letter_other_items")
+                else:
+                    d = new_dset(tg)
                 lines.append(f"castto ${h} ${a} ${d}"); cnt("castto"); result_fresh = h
             elif roll < 0.58:
                 lines.append(f"cumsum ${h} ${a} {r.choice(la + ['e']) if la else 'a'}"); cnt("cumsum"); result_fresh = h
@@ -220,17 +227,34 @@ def gen_history(tier, seed):
                 # stocks and lifetime models built from existing arrays / dimension sets
                 tl = r.choice(["t", "t", "a"])
                 base = r.choice([[7, 1], [7], [1, 7], [8, 1], [0, 1]])
+                other = r.choice([[7, 1], [8, 1], [1, 7], [7], [7, 1], [9, 1], [9]])
+                how = r.random()
+                if how >= 0.6 and r.random() < 0.5:
+                    # other dimensions whose lengths happen to fit: labels decide, not shapes
+                    base, other = r.choice([([7, 1], [9, 1]), ([7], [9]), ([7, 1], [7, 0]), ([9, 1], [7, 1])])
                 hb = nxt[0]; nxt[0] += 1
                 lines.append(f"dset ${hb} " + " ".join(f"${x}" for x in base))
-                other = r.choice([[7, 1], [8, 1], [1, 7], [7], [7, 1], [9, 1], [9]])
                 ho = nxt[0]; nxt[0] += 1
                 lines.append(f"dset ${ho} " + " ".join(f"${x}" for x in other))
                 ha = nxt[1]; nxt[1] += 1
-                lines.append(f"full ${ha} ${ho} 1")
-                if r.random() < 0.5:
-                    lines.append(f"mkstock ${hb} {tl} a:${ha}")
+                if how < 0.6:
+                    lines.append(f"full ${ha} ${ho} 1")
+                    ref = f"a:${ha}"                       # wrapped into a StockArray over its own dimensions
                 else:
-                    lines.append(f"mkstock ${hb} {tl} a:${ha} l:${ho}")
+                    # handed over as the object it is: a StockArray, or a Parameter / Flow / plain array
+                    kind = r.choice(["stock", "param", "flow", "plain"])
+                    sz = 1
+                    for x in other:
+                        sz *= {0: 2, 1: 2, 7: 3, 8: 4, 9: 3}[x]
+                    shp = ",".join(str({0: 2, 1: 2, 7: 3, 8: 4, 9: 3}[x]) for x in other)
+                    ctor = "arr" if kind == "plain" else f"sarr {kind}"
+                    lines.append(f"{ctor} ${ha} ${ho} {shp} " + " ".join(["1"] * sz))
+                    ref = f"p:{'stock' if kind == 'stock' else 'other'}:${ha}"
+                    cnt("mkstock_object_as_is")
+                if r.random() < 0.5:
+                    lines.append(f"mkstock ${hb} {tl} {ref}")
+                else:
+                    lines.append(f"mkstock ${hb} {tl} {ref} l:${ho}")
                 lines.append(f"mklt ${ho} {tl} {r.choice(['start', 'middle', 'end', 'centre'])}")
                 # a lifetime parameter given as an array: over dimensions of the model (any order), or over
                 # foreign ones that happen to have the same lengths
